@@ -572,6 +572,25 @@ fn serve() {
         let mut resp = Response { id: req.id, config: config_string(), ..Default::default() };
         let must_exit = match req.op.as_str() {
             "run" => handle_run(&req, &mut resp),
+            "run_each" => {
+                // every snippet is an independent program on its own fresh interpreter
+                let mut stop = false;
+                for src in &req.snippets {
+                    let mut sub = req.clone();
+                    sub.snippets = vec![src.clone()];
+                    let mut r = Response::default();
+                    stop = handle_run(&sub, &mut r);
+                    resp.results.extend(r.results);
+                    resp.uaf.extend(r.uaf);
+                    resp.monitor_checks += r.monitor_checks;
+                    resp.monitor_failures += r.monitor_failures;
+                    resp.unsupported.extend(r.unsupported);
+                    if stop {
+                        break;
+                    }
+                }
+                stop
+            }
             "compile" => handle_compile(&req, &mut resp),
             "compile_batch" => handle_compile_batch(&req, &mut resp),
             "intern" => handle_intern(&req, &mut resp),
